@@ -5,7 +5,7 @@ from concurrent.futures import ThreadPoolExecutor
 sys.path.insert(0, os.path.join(os.path.dirname(os.path.abspath(__file__)), "..", "lib"))
 from vlib import *
 
-HARD_FEATURE = {"keywords": "keyword-identifier", "container-keys": "container-key"}
+HARD_FEATURE = {"keywords": "keyword-identifier", "container-keys": "container-key", "nested-typedef": "nested-typedef"}
 FIXED_FILES = ["inc.frugal", "left.frugal", "right.frugal", "a/common.frugal", "b/common.frugal"]   # written by idlcheck next to every program
 PY2 = "/root/.pyenv/versions/2.7.18/bin/python"
 TARGETS = ["go", "java", "dart", "py", "py:asyncio", "py:tornado", "json", "html"]
@@ -174,7 +174,7 @@ def run(ctx):
         raise MachineryError("focus 'breaks' yields only %d kinds of invalid programs" % len(set(json.loads(q)["broken"] for q in breakprogs)))
     # the families of constructs the generators are known to mishandle, generated apart from everything else
     hardprogs = {}
-    for hard in ("keywords", "container-keys"):
+    for hard in ("keywords", "container-keys", "nested-typedef"):
         ctx.seed = old * 17 + 99
         r = ctx.tlc("IDL", "i.cfg", cfg_text=idl_cfg("FALSE", 14, "FALSE", hard), workers=1, simulate=2 if not thorough else 4, depth=14, timeout=1200)
         if not r.ok:
@@ -300,7 +300,7 @@ def run(ctx):
             continue
         if crashed(text):
             m = re.search(r"(panic: .*|fatal error: .*|runtime error: .*)", text)
-            ctx.violation("crash/%s/%s" % (kind, tgt), "frugal -gen %s crashed on a %s input: %s" % (gen, kind, m.group(1) if m else text[-200:]), rp)
+            ctx.violation("crash/%s/%s" % (kind if kind != "none" else feat.get(job[0], ["repo-idl"])[0], tgt), "frugal -gen %s crashed on a %s input: %s" % (gen, kind, m.group(1) if m else text[-200:]), rp)
             continue
         if expect == "ok" and rc != 0:
             ctx.violation("valid-rejected/%s/%s" % (tgt, feat.get(lab if lab in feat else job[0], ["plain"])[0]), "frugal -gen %s rejected a valid program (features %s): %s" % (gen, feat.get(job[0]), text.strip()[-300:]), rp)
